@@ -46,6 +46,10 @@ def run(ctx):
     if not srcs:
         ctx.ok('H1.panic-source', 'none', '', 'no panic source in the cone')
 
+    # ---- H5 a frame that has arrived completely is delivered or rejected, never awaited (the frame decoder's path rules, shared with C06)
+    from props import C06
+    C06.check_frame_decoder(ctx, f, 'H5', 'H5')
+
     # ---- H2 recursion
     cycles = G.sccs(set(parent.keys()))
     for comp in cycles:
